@@ -60,11 +60,16 @@ def case_roundtrip(name):
                     run.note("meshio writer refuses (%s, %s): %s" % (name, ext, type(exc).__name__))
                     run.skip("files.mesh", "writer refuses this (cell type, format)")
                     continue
-                mc = fem.mesh.read(fn_, dim=m.dim)
-                m2 = mc[0]
+                try:
+                    mc = fem.mesh.read(fn_, dim=m.dim)
+                    m2 = mc[0]
+                    raw = meshio.read(fn_)
+                except (Exception, SystemExit) as exc:
+                    run.fail("files.mesh", "celltype=%s format=%s clause=roundtrip-readable" % (name, ext),
+                             "a %s mesh written as %s cannot be read back (%s: %s)" % (name, ext, type(exc).__name__, str(exc)[:200]))
+                    continue
                 ok = (len(mc.meshes) == 1 and m2.cell_type == m.cell_type and np.array_equal(m2.cells, m.cells)
                       and m2.points.shape == m.points.shape and np.array_equal(m2.points, m.points))
-                raw = meshio.read(fn_)
                 ok_raw = np.array_equal(raw.points[:, : m.dim], m.points) and (raw.points.shape[1] == m.dim or maxabs(raw.points[:, m.dim:]) == 0)
                 if ok and ok_raw:
                     run.ok("files.mesh", unit="mesh:%s:%s" % (name, ext), config=(name, ext),
